@@ -32,6 +32,7 @@ class Pool:
     def __init__(self, cfg, o, d, seed):
         self.cfg, self.o, self.d = cfg, o, d
         self.rng = random.Random(seed); self.held = {}; self.log = []; self.stopped = set(); self.exc = None
+        self.reports = {}      # trial id -> the values its current run has reported (reset whenever the trial is handed out)
 
     def step(self):
         W = self.cfg["W"]; o = self.o
@@ -50,6 +51,7 @@ class Pool:
             try:
                 if kind == "C":
                     o.update_trial(t.trial_id, {"score": v}, step=0); t.status = "COMPLETED"
+                    self.reports.setdefault(int(t.trial_id), []).append(v)
                 else:
                     t.status = "INVALID" if kind == "I" else "FAILED"
                 o.end_trial(t); resp = "ok"
@@ -58,6 +60,13 @@ class Pool:
             except Exception as e:
                 resp = "error:%s" % type(e).__name__; lc._release(o)
             self.log.append(("end", int(t.trial_id), kind, resp))
+        elif tn in self.held and self.cfg.get("mid") and self.rng.random() < 0.5:
+            # an intermediate report of the running trial (as the per-epoch callback sends)
+            t = self.held[tn]
+            v = float(60 * self.rng.randint(-5, 5))
+            o.update_trial(t.trial_id, {"score": v}, step=0)
+            self.reports.setdefault(int(t.trial_id), []).append(v)
+            self.log.append(("report", int(t.trial_id), v))
         else:
             try:
                 t = o.create_trial(tn)
@@ -65,6 +74,8 @@ class Pool:
                 lc._release(o); self.exc = "%s: %s" % (type(e).__name__, str(e)[:120])
                 self.log.append(("create", w, "EXC", self.exc)); return False
             if t.status == "RUNNING":
+                if tn not in self.held:
+                    self.reports[int(t.trial_id)] = []
                 self.held[tn] = t
             self.log.append(("create", w, int(t.trial_id), t.status, lc.token(t.hyperparameters.values)))
         return True
@@ -143,8 +154,19 @@ def run_case(cfg):
             if not (ra and rb):
                 break
         fa = norm(lc.snapshot(o, d)); fb = norm(lc.snapshot(o2, d2))
+        # a trial handed out again runs from scratch: what it has on record is what that run reported
+        stale = None
+        for pool, oo in ((pb, o2), (pa, o)):
+            for tid, vals in pool.reports.items():
+                tr = [t for k, t in oo.trials.items() if int(k) == tid][0]
+                if tr.status != "COMPLETED" or any(v != v for v in vals) or not tr.metrics.exists("score"):
+                    continue
+                got = [float(x) for ob in tr.metrics.get_history("score") for x in ob.value]
+                if got != vals and stale is None:
+                    stale = "trial %d was handed out %s and that run reported %r, but it has %r on record" % (
+                        tid, "again after the reload" if oo is o2 else "again", vals, got)
         return dict(prefix=p.log, state_diff=state_diff, algo_diff=algo_diff, cont_live=pa.log, cont_reloaded=pb.log,
-                    final_live=fa, final_reloaded=fb, exc_live=pa.exc, exc_reloaded=pb.exc,
+                    final_live=fa, final_reloaded=fb, stale=stale, exc_live=pa.exc, exc_reloaded=pb.exc,
                     max_trials=cfg["max_trials"], ntrials=len(fb["st"]))
     finally:
         shutil.rmtree(d, ignore_errors=True); shutil.rmtree(d2, ignore_errors=True)
@@ -161,6 +183,8 @@ def spec(cfg, r):
     if r["algo_diff"]:
         k = sorted(r["algo_diff"])[0]
         return "algo-state-restored", "after reload %s is %s, was %s" % (k, r["algo_diff"][k][1], r["algo_diff"][k][0])
+    if r.get("stale"):
+        return "rerun-from-scratch", r["stale"]
     if r["exc_reloaded"] and not r["exc_live"]:
         return "continuation", "%s oracle: the reloaded oracle raised %s where the uninterrupted one did not" % (cfg["kind"], r["exc_reloaded"])
     if cfg["kind"] != "bayes":
@@ -183,6 +207,7 @@ def gen(rng):
     cfg = lc.gen_config(rng)
     cfg["prefix"] = rng.randint(0, 22); cfg["cont"] = rng.randint(8, 30)
     cfg["grow"] = rng.random() < 0.4
+    cfg["mid"] = rng.random() < 0.5
     if cfg["grow"] and cfg["kind"] in ("grid", "hyperband") and rng.random() < 0.6:
         cfg["W"] = rng.randint(2, 4); cfg["prefix"] = rng.randint(6, 30)
     if cfg["kind"] == "bayes":
@@ -216,7 +241,7 @@ def run(ctx):
         if len(samples) < 2 and "final_live" in r:
             samples.append(dict(cfg=cfg, prefix=r["prefix"][:10], continuation=r["cont_reloaded"][:10]))
     return dict(evaluations=n, distinct_nontrivial=distinct, traces_validated=n - stats["skipped"],
-                rule="a deterministic worker pool (1-4 tuners; outcome of run k of trial i fixed by a hash: completed / NaN / INVALID / FAILED) drives a real "
+                rule="a deterministic worker pool (1-4 tuners; outcome of run k of trial i fixed by a hash: completed / NaN / INVALID / FAILED; in half of the cases running trials also send intermediate reports) drives a real "
                      "random, grid, Hyperband or Bayesian oracle for 0-22 operations; the state is saved, copied and reloaded into a fresh oracle; reloaded vs "
                      "uninterrupted (running trials re-queued) are compared field by field and then through the same 5-30 further operations; "
                      "non-trivial = distinct prefix with >= 3 operations",
